@@ -29,6 +29,7 @@ import PV.Driver.ParserTableOps
 import PV.Driver.CodegenOps
 import PV.Driver.AlgoTableOps
 import PV.Driver.CoeffTableOps
+import PV.Driver.RewriteTableOps
 /-
   Driver operations: one request S-expression in, one reply S-expression out.
 -/
@@ -230,6 +231,7 @@ def handlers : List (Sexp → Option Sexp) :=
    , handleCodegen
    , handleC19Table
    , handleCoeffTable
+   , handleRewriteTable
    -- HANDLERS
   ]
 
